@@ -42,7 +42,8 @@ Definition agree (ordered : bool) (c : dcase) : bool :=
   let loc := lrun p (dc_inputs c) in
   vals_eqb loc (dc_local c)
   && (if dc_op c
-      then list_eqb vals_eqb (exec_trace cf (w_init cf) (dc_events c)) (dc_steps c)
+      then list_eqb vals_eqb ((if dc_buffered c then exec_trace else exec_trace_direct) cf (w_init cf) (dc_events c))
+                             (dc_steps c)
       else true)
   && (if dc_complete c
       then let '(st, arr) := drun p (dc_inputs c) in vals_eqb (map (force st) arr) (concat (dc_steps c))
